@@ -262,6 +262,10 @@ def check_case(ctx, rng, idx):
                     ctx.violation('interconnect-table', 'interconnects() has no top-level block although the file contains INTERCONNECT entries', case)
                 continue
             got = fn(c, lib)
+            again = fn(c, lib)
+            if got.shape == again.shape and not np.array_equal(got, again):
+                ctx.violation('delay-table', f'{label}() returns different arrays when called twice on the same DelayFile and circuit', case)
+                break
             ctx.count('array_cells_compared', int(exp.size))
             ctx.count('nonzero_expected', int((exp != 0).sum()))
             if got.shape != exp.shape:
